@@ -446,7 +446,12 @@ def make_batch_jobs(ctx: Ctx, n: int, avoid_known: bool = True) -> list[dict]:
     jobs = []
     for i in range(n):
         r = rng.random()
-        if r < 0.78:
+        if r < 0.04:
+            # partial types refined in nested places (incl. refining calls nested in refining calls on the same variable)
+            blocks = [gen.partial_block(f"v{j}", rng) for j in range(rng.randint(2, 5))]
+            jobs.append({"id": f"p{i}", "origin": "gen:partial-focus", "kinds": ["generated"],
+                         "files": {"main.py": "\n".join(blocks)}, "flags": []})
+        elif r < 0.78:
             c = rng.choice(cases)
             o = rng.choice(cases)
             files = dict(c.files)
@@ -492,7 +497,7 @@ def make_batch_jobs(ctx: Ctx, n: int, avoid_known: bool = True) -> list[dict]:
 
 def run_batch(ctx: Ctx, runner: Runner, jobs: list[dict]) -> list[dict]:
     def one(job):
-        res = runner.run(job["id"], job["files"], job["flags"])
+        res = runner.run(job["id"], job["files"], job["flags"], timeout=job.get("timeout"))
         return res
     with ThreadPoolExecutor(max_workers=NPROC) as ex:
         return list(ex.map(one, jobs))
@@ -705,6 +710,34 @@ def make_histories(ctx: Ctx, nhist: int, steps: int) -> list[list[dict]]:
     return hists
 
 
+def make_project_histories(ctx: Ctx, nhist: int, steps: int) -> list[list[dict]]:
+    """multi-module projects checked through their entry point only (`dmypy check main.py`, follow-imports=normal: the
+    imports are followed), with import cycles (incl. self-imports); most steps edit two or more cycle members at once"""
+    rng = ctx.rng
+    cases = corpus.load(REPO)
+    hists = []
+    for _ in range(nhist):
+        files, meta = gen.project(rng)
+        orig = dict(files)
+        state = dict(files)
+        hist = [{"write": dict(files), "delete": [], "probe": False, "origin": "project", "kinds": ["project:initial"],
+                 "present": sorted(files)}]
+        for _s in range(steps - 1):
+            write, delete, labels = gen.project_step(state, meta, rng, mutate.mutate, rng.choice(cases).main)
+            missing = sorted(set(orig) - set(state) - set(write))
+            if missing and rng.random() < 0.5:
+                back = rng.choice(missing)
+                write[back] = orig[back]
+                labels.append("restore-module")
+            for n in delete:
+                state.pop(n, None)
+            state.update(write)
+            hist.append({"write": write, "delete": delete, "probe": False, "origin": "project",
+                         "kinds": ["project:" + l for l in labels], "present": sorted(state)})
+        hists.append(hist)
+    return hists
+
+
 def run_history(ctx: Ctx, runner: Runner, hid: int, hist: list[dict], flags: list[str]) -> list[dict]:
     """run one history (restarting the worker after a hang); returns the per-step records"""
     d = os.path.join(ctx.tmp, f"d{hid}")
@@ -721,7 +754,8 @@ def run_history(ctx: Ctx, runner: Runner, hid: int, hist: list[dict], flags: lis
             return (int(parts[11]) + int(parts[12])) / tck
         except (OSError, ValueError, IndexError):
             return None
-    while start < len(hist) and attempt < 6:
+    nhang = 0
+    while start < len(hist) and attempt < 6 and nhang < 2:      # (a history that hung twice is not continued)
         attempt += 1
         wd = os.path.join(d, f"w{attempt}")
         os.makedirs(wd)
@@ -783,6 +817,7 @@ def run_history(ctx: Ctx, runner: Runner, hid: int, hist: list[dict], flags: lis
                            "hang": hung_at is not None, "worker_died": hung_at is None,
                            "stderr": (err[err.find("most recent call first"):][:2500] if "most recent call first" in err
                                       else err[-1500:])}
+        nhang += hung_at is not None
         start = failed + 1
     shutil.rmtree(d, ignore_errors=True)
     return records
@@ -798,6 +833,8 @@ def daemon_search(ctx: Ctx, runner: Runner) -> None:
     nhist = ctx.pick(6, 12)
     steps = max(int(ctx.pick(40, 320) * SCALE), 9)
     hists = make_histories(ctx, nhist, steps)
+    # + multi-module projects with import cycles, entry point only, several cycle members edited per request
+    hists += make_project_histories(ctx, ctx.pick(3, 8), max(int(ctx.pick(30, 160) * SCALE), 8))
     t0 = time.time()
     with ThreadPoolExecutor(max_workers=6) as ex:
         all_records = list(ex.map(lambda a: run_history(ctx, runner, a[0], a[1], []), enumerate(hists)))
@@ -829,7 +866,10 @@ def daemon_search(ctx: Ctx, runner: Runner) -> None:
                 continue
             ctx.case(("daemon", h, i, hashlib.sha1(json.dumps(st["write"], sort_keys=True).encode("utf8", "surrogatepass")).hexdigest()))
             ctx.count("traces_validated_against_impl")
-            ctx.dist("daemon_step", "probe" if st["probe"] else "mutant")
+            ctx.dist("daemon_step", "probe" if st["probe"] else ("project-edit" if st["origin"] == "project" else "mutant"))
+            if st["origin"] == "project":
+                for k_ in st["kinds"][:1]:
+                    ctx.dist("project_edit", k_.split(":", 1)[1])
             ctx.dist("daemon_fg_iterations", str((r.get("trace") or {}).get("fg_iters", "?")))
             v = vmap.get((h, i), "accepted")
             obs = None
@@ -863,6 +903,8 @@ def daemon_search(ctx: Ctx, runner: Runner) -> None:
                     steps_min = minimal_history(hist, recs, i)
                     if obs["class"] == "daemon-crash" and known is None:
                         steps_min = shrink_history(ctx, runner, steps_min, obs, budget=ctx.pick(8, 16))
+                    elif obs["class"] == "hang" and known is None:
+                        steps_min = shrink_history(ctx, runner, steps_min, obs, budget=2)
                     ctx.report(obs, f"daemon {obs['class']} ({obs.get('exc') or obs.get('reason') or ''} in {obs.get('file')}:"
                                     f"{obs.get('frame')}) at step {i} of a history ({st['origin']} after {'+'.join(st['kinds']) or 'no mutation'})",
                                {"daemon_history": [{"write": s["write"], "delete": s["delete"]} for s in steps_min],
@@ -947,6 +989,8 @@ def shrink_history(ctx: Ctx, runner: Runner, steps: list[dict], obs: dict, budge
                 return False
             got = [l for l in (r["resp"].get("out") or "").split("\n") if l.strip() and hint not in l]
             return sorted(got) != sorted(fresh)
+        if obs.get("class") == "hang":
+            return bool(r and r.get("hang"))
         if not r or not r.get("exc"):
             return False
         return (r["exc"][0], r["exc"][2]) == (obs.get("exc"), obs.get("frame"))
@@ -963,6 +1007,11 @@ def shrink_history(ctx: Ctx, runner: Runner, steps: list[dict], obs: dict, budge
         if k:
             s_["delete"] = sorted(set(full[k - 1]["write"]) - set(s_["write"]))
     cur = full
+    # first try the two-step history "state before the failing edit, then the edit"
+    if len(cur) > 2:
+        cand = [dict(cur[-2], delete=[]), dict(cur[-1], delete=sorted(set(cur[-2]["write"]) - set(cur[-1]["write"])))]
+        if fails(cand):
+            cur = cand
     chunk = max((len(cur) - 1) // 2, 1)
     while chunk >= 1 and len(cur) > 2 and used[0] < budget:
         i = 0
@@ -1186,7 +1235,7 @@ def main(ctx: Ctx) -> None:
         # broken proof obligation: the drivers cannot run; the search below still runs on the real code, with the
         # acceptance predicate evaluated by a Python transcription of `accepts` being impossible — so only the
         # externally visible clauses (status, markers, time limit) are evaluated
-        search_without_lean(ctx, runner)
+        search_without_lean(ctx, runner, info)
     else:
         witnesses(ctx, runner, info)
         batch_search(ctx, runner)
@@ -1196,16 +1245,22 @@ def main(ctx: Ctx) -> None:
                       {"broken": ctx.broken_ties, "caps_from_source": ctx.coverage["caps_from_source"]}, found_input=False)
 
 
-def search_without_lean(ctx: Ctx, runner: Runner) -> None:
+def search_without_lean(ctx: Ctx, runner: Runner, info: dict | None = None) -> None:
     """the proof obligation is broken (e.g. a cap test is gone): look for a concrete hanging / crashing input among
     deferral-heavy programs and ordinary mutants, judged by what is visible from outside"""
     jobs = []
-    for k in range(0, 40, 3):
-        jobs.append({"id": f"dc{k}", "origin": f"defer-chain-{k}", "kinds": ["generated"],
-                     "files": {"main.py": gen.defer_chain(k)}, "flags": []})
-    for k in range(1, 5):
-        jobs.append({"id": f"dy{k}", "origin": f"defer-cycle-{k}", "kinds": ["generated"],
-                     "files": {"main.py": gen.defer_cycle(k)}, "flags": []})
+    # a defer site of checker.py that lost its `pass_num < last_pass` guard: programs that reach THAT site (table
+    # gen.DEFER_SITE_FAMILIES: enclosing function of the `self.defer_node(...)` call → program family); with every site
+    # guarded (the obligation broke for another reason) the reads of never-determined variables are still run
+    sites = (info or {}).get("deferSiteList") or []
+    unguarded = sorted({s_["function"] or "?" for s_ in sites if not s_["guarded"]})
+    ctx.coverage["unguarded_defer_sites"] = [s_ for s_ in sites if not s_["guarded"]]
+    fams = gen.defer_site_programs(unguarded) if unguarded else gen.undetermined_read_family()
+    for k, (label, src) in enumerate(fams):
+        # small programs (a normal run takes a fraction of a second): a short CPU limit keeps a hanging family cheap
+        jobs.append({"id": f"ds{k}", "origin": label, "kinds": ["generated"] + (["defer-site:" + ",".join(unguarded)] if unguarded else []),
+                     "files": {"main.py": src}, "flags": [], "timeout": 8})
+        ctx.dist("defer_site_family", label.split(":")[0].split("-")[0])
     # the witnesses of the known crash classes: their *exit status* and markers are still judged
     for wid, files, flags, kind in WITNESSES:
         if kind == "batch" and wid != "F6-pow":
@@ -1237,8 +1292,11 @@ def handle_batch_failure_nolean(ctx: Ctx, runner: Runner, job: dict, res: dict) 
     if known is not None and any(k == known["id"] for k, _ in ctx.known_hits):
         return
     files = job["files"] if known is not None else shrink(runner, job, sig, budget=30)
-    ctx.report(sig, f"mypy {sig['class']} ({sig.get('exc') or ''} in {sig.get('file')}:{sig.get('frame')}) on {job['origin']}",
+    site = next((k for k in job["kinds"] if k.startswith("defer-site:")), "")
+    ctx.report(sig, f"mypy {sig['class']} ({sig.get('exc') or ''} in {sig.get('file')}:{sig.get('frame')}) on {job['origin']}"
+                    + (f" — reaches the unguarded {site}" if site else ""),
                {"files": files, "flags": job["flags"], "cmd": "python -m mypy --show-traceback " + " ".join(job["flags"]) + " main.py",
+                "origin": job["origin"], "kinds": job["kinds"], "unguarded_defer_sites": ctx.coverage.get("unguarded_defer_sites"),
                 "output_tail": (res["out"] + res["err"])[-1200:]})
 
 
